@@ -171,3 +171,121 @@ func directedEdges(b *harness.B) {
 		}
 	}
 }
+
+func edgeMineV1(cs consensus.State, ts time.Time, txns []types.Transaction) (types.Block, bool) {
+	blk := types.Block{ParentID: cs.Index.ID, Timestamp: ts, MinerPayouts: []types.SiacoinOutput{{Address: types.VoidAddress, Value: cs.BlockReward()}}, Transactions: txns}
+	f := cs.NonceFactor()
+	for i := 0; i < 1<<16; i++ {
+		if blk.ID().CmpWork(cs.ChildTarget) >= 0 {
+			return blk, true
+		}
+		blk.Nonce += f
+	}
+	return blk, false
+}
+
+// directedOwners: height rules on the less travelled ways of owning an output (seeded wave 8).
+//
+//	(a) the developer-address override: siafunds at HardforkDevAddr.OldAddress are spendable under the unlock
+//	    conditions hashing to NewAddress; the time lock of the conditions presented holds on that way too - rejected
+//	    below the lock height, accepted from it on;
+//	(b) outputs the genesis block creates with a delay (a miner payout): the pre-genesis state carries a sentinel
+//	    height, the maturity height is still 0 + MaturityDelay - immature below, spendable from it on.
+func directedOwners(b *harness.B) {
+	// (a)
+	for _, lock := range []uint64{3, 6} {
+		key := types.NewPrivateKeyFromSeed(make([]byte, 32))
+		uc := types.UnlockConditions{Timelock: lock, PublicKeys: []types.UnlockKey{key.PublicKey().UnlockKey()}, SignaturesRequired: 1}
+		n, g, _ := edgeNet(2)
+		n.HardforkV2.AllowHeight, n.HardforkV2.RequireHeight, n.HardforkV2.FinalCutHeight = 1000, 2000, 3000
+		n.HardforkDevAddr.Height = 1
+		n.HardforkDevAddr.OldAddress = types.Address{0xD0, 0x1D}
+		n.HardforkDevAddr.NewAddress = uc.UnlockHash()
+		g.Transactions = []types.Transaction{{SiafundOutputs: []types.SiafundOutput{{Value: 10000, Address: n.HardforkDevAddr.OldAddress}}}}
+		cs, au := consensus.ApplyBlock(n.GenesisState(), g, consensus.V1BlockSupplement{Transactions: make([]consensus.V1TransactionSupplement, 1)}, time.Time{})
+		var sfe *types.SiafundElement
+		for _, d := range au.SiafundElementDiffs() {
+			if d.Created {
+				e := d.SiafundElement.Copy()
+				sfe = &e
+			}
+		}
+		if sfe == nil {
+			b.Inconclusive("owners: genesis siafund output not reported")
+			continue
+		}
+		ts := g.Timestamp
+		for h := uint64(1); h <= lock+2; h++ {
+			ts = ts.Add(time.Minute)
+			txn := types.Transaction{SiafundInputs: []types.SiafundInput{{ParentID: sfe.ID, UnlockConditions: uc, ClaimAddress: types.VoidAddress}},
+				SiafundOutputs: []types.SiafundOutput{{Value: 10000, Address: types.VoidAddress}},
+				Signatures:     []types.TransactionSignature{{ParentID: types.Hash256(sfe.ID), CoveredFields: types.CoveredFields{WholeTransaction: true}}}}
+			sig := key.SignHash(cs.WholeSigHash(txn, txn.Signatures[0].ParentID, 0, 0, nil))
+			txn.Signatures[0].Signature = sig[:]
+			if blk, ok := edgeMineV1(cs, ts, []types.Transaction{txn}); ok {
+				bs := consensus.V1BlockSupplement{Transactions: []consensus.V1TransactionSupplement{{SiafundInputs: []types.SiafundElement{sfe.Copy()}}}}
+				err := consensus.ValidateBlock(cs, blk, bs)
+				b.Eval(1)
+				b.Count("dev_address_override_timelock_cases", 1)
+				b.Distinct("owners", "dev-address-override", lock, h < lock, h == lock)
+				switch {
+				case h < lock && err == nil:
+					b.Violate("C08/early-accept/v1-timelock/siafund-spent-through-the-developer-address-override", fmt.Sprintf("unlock conditions with time lock %d, presented through the HardforkDevAddr override, spend the siafund output at height %d", lock, h), map[string]any{"timelock": lock, "height": h})
+				case h >= lock && err != nil:
+					b.Violate("C08/late-reject/v1-timelock/siafund-spent-through-the-developer-address-override", fmt.Sprintf("unlock conditions with time lock %d, presented through the HardforkDevAddr override, are refused at height %d: %v", lock, h, err), map[string]any{"timelock": lock, "height": h})
+				}
+			}
+			empty, ok := edgeMineV1(cs, ts, nil)
+			if !ok || consensus.ValidateBlock(cs, empty, consensus.V1BlockSupplement{}) != nil {
+				b.Inconclusive("owners: empty block not accepted")
+				break
+			}
+			var eau consensus.ApplyUpdate
+			cs, eau = consensus.ApplyBlock(cs, empty, consensus.V1BlockSupplement{}, g.Timestamp)
+			eau.UpdateElementProof(&sfe.StateElement)
+		}
+	}
+	// (b)
+	for _, delay := range []uint64{0, 1, 3} {
+		n, g, pol := edgeNet(delay)
+		g.MinerPayouts = []types.SiacoinOutput{{Address: pol.Address(), Value: types.Siacoins(77)}}
+		cs, au := consensus.ApplyBlock(n.GenesisState(), g, consensus.V1BlockSupplement{}, time.Time{})
+		var payout *types.SiacoinElement
+		for _, d := range au.SiacoinElementDiffs() {
+			if d.Created && d.SiacoinElement.ID == g.ID().MinerOutputID(0) {
+				e := d.SiacoinElement.Copy()
+				payout = &e
+			}
+		}
+		if payout == nil {
+			b.Inconclusive("owners: genesis payout not reported")
+			continue
+		}
+		ts := g.Timestamp
+		for h := uint64(1); h <= delay+2; h++ {
+			ts = ts.Add(time.Minute)
+			txn := types.V2Transaction{SiacoinInputs: []types.V2SiacoinInput{{Parent: payout.Copy(), SatisfiedPolicy: types.SatisfiedPolicy{Policy: pol}}},
+				SiacoinOutputs: []types.SiacoinOutput{{Value: payout.SiacoinOutput.Value, Address: types.VoidAddress}}}
+			if blk, ok := edgeMine(cs, ts, types.VoidAddress, []types.V2Transaction{txn}); ok {
+				err := consensus.ValidateBlock(cs, blk, consensus.V1BlockSupplement{})
+				b.Eval(1)
+				b.Count("genesis_payout_maturity_cases", 1)
+				b.Distinct("owners", "genesis-payout", delay, h < delay, h == delay)
+				switch {
+				case h < delay && err == nil:
+					b.Violate("C08/early-accept/maturity/payout-of-the-genesis-block", fmt.Sprintf("MaturityDelay %d: the genesis block's miner payout (recorded maturity height %d) is spent at height %d", delay, payout.MaturityHeight, h), map[string]any{"delay": delay, "height": h})
+				case h >= delay && err != nil:
+					b.Violate("C08/late-reject/maturity/payout-of-the-genesis-block", fmt.Sprintf("MaturityDelay %d: the genesis block's miner payout (recorded maturity height %d) is refused at height %d: %v", delay, payout.MaturityHeight, h, err), map[string]any{"delay": delay, "height": h, "recorded_maturity_height": payout.MaturityHeight})
+				}
+			}
+			empty, ok := edgeMine(cs, ts, types.VoidAddress, nil)
+			if !ok || consensus.ValidateBlock(cs, empty, consensus.V1BlockSupplement{}) != nil {
+				b.Inconclusive("owners: empty block not accepted")
+				break
+			}
+			var eau consensus.ApplyUpdate
+			cs, eau = consensus.ApplyBlock(cs, empty, consensus.V1BlockSupplement{}, g.Timestamp)
+			eau.UpdateElementProof(&payout.StateElement)
+		}
+	}
+}
